@@ -765,3 +765,36 @@ PLAN['C10']['bounds'] = {k: v + '; relabelled behaviours n<=%d, adds 0..2, one u
 for _p in ('C01', 'C05', 'C10'):
     PLAN[_p]['assumptions'] = list(PLAN[_p]['assumptions']) + [
         'leaves are distinct among the live leaves; a hash may come back in the block that deletes it (hash-reuse variant), never while it is live']
+
+
+# --------------------------------------------------------------------------- C10: partial forests
+# the look-ups of a partial forest after every kind of call, refused blocks included
+_c10d = PLAN['C10']['stages']
+PLAN['C10']['stages'] = lambda tier, seed: _c10d(tier, seed) + (
+    [partial('partial_all', ALLP, 4, 2, stack=1, und=1, fr=1, last=True)] if tier == 'quick' else
+    [partial('partial_all', ALLP, 5, 3, stack=2, und=2, fr=1),
+     partial('partial_last', ALLP + ['restore'], 5, 2, stack=1, und=1, fr=1, rst=1, last=True)])
+PLAN['C10']['rule'] += (' Partial forests (spec/Partial.tla): after every call - blocks, refused blocks (BadModify: a block that names a leaf '
+                        'the instance does not remember leaves everything as it was), Verify with remember, Ingest, Prune, Undo, '
+                        're-creation from roots, a round trip - every leaf hash ever added is looked up (found exactly when remembered, '
+                        'at PosOf), every position is read and CachedLeaves.Length() equals the number of remembered live leaves.')
+PLAN['C10']['bounds'] = {'quick': PLAN['C10']['bounds']['quick'] + '; partial forests n<=4, adds 0..2, all call kinds',
+                         'thorough': PLAN['C10']['bounds']['thorough'] + '; partial forests n<=5, adds 0..3, undo depth 2'}
+
+
+# --------------------------------------------------------------------------- sparse tall forests
+def drive_sparse(tier):
+    q = tier == 'quick'
+    return {'kind': 'drive', 'name': 'drive_sparse', 'cmd': 'drive', 'trace_module': 'CoreTrace',
+            'trace_cfg': {'invariants': ['TraceReport']},
+            'x': 'big=2,histories=%d,maxn=2047' % (4 if q else 24), 'timeout': 900 if q else 5400}
+
+
+SPARSE_RULE = (' Sparse tall forests (stage drive_sparse): scripted histories on forests of 512-2047 leaves in which a partial forest '
+               'remembers a handful of leaves: an aligned block of 2^r leaves (r = 8, 9) is emptied down to one leaf (which moves up r rows), '
+               'that leaf is deleted (its tall sibling moves up or the tree empties), additions run over the empty root, an undo and a '
+               'further block follow; TLC (spec/CoreTrace.tla) judges the roots of every instance, the positions and the complete stored-node '
+               'dump of the partial forests (StoredOK) and proofs of remembered leaves after every step.')
+for _p in ('C09', 'C01', 'C10'):
+    PLAN[_p]['stages'] = (lambda f: (lambda tier, seed: f(tier, seed) + [drive_sparse(tier)]))(PLAN[_p]['stages'])
+    PLAN[_p]['rule'] += SPARSE_RULE
